@@ -323,6 +323,8 @@ class Interp:
         if isinstance(f, functools.partial):
             return self.call_value(f.func, tuple(f.args) + tuple(args), {**(f.keywords or {}), **kwargs})
         if isinstance(f, types.MethodType):
+            if getattr(f.__self__, "__pyvc_abstract__", False):
+                return f(*args, **kwargs)  # engine-side abstract object (AbsList, PathData ...)
             if getattr(f.__func__, "__name__", "") in ("_replace", "_asdict") and isinstance(f.__self__, tuple):
                 return f(*args, **kwargs)  # NamedTuple plumbing generated by collections
             return self.call_value(f.__func__, (f.__self__,) + tuple(args), kwargs)
